@@ -181,6 +181,46 @@ class Gen:
         if "iter" in ops: seq.append("iter")
         return seq
 
+    def many_keys(self, length):
+        """grow the container to well over a thousand distinct keys (sequential and scattered), with finds, erases and
+        updates in between: resize / rehash / bucket-table growth paths of the hash containers"""
+        rng = self.rng
+        ops = self.ops
+        have = lambda *names: [n for n in names if n in ops]
+        ins_ops = have("ins", "emp", "insf") or have("upd", "ups")
+        del_ops = have("era", "eraf", "unl", "ext")
+        look_ops = have("con", "fnd", "get")
+        seq, present, nxt = [], [], 0
+        self.fresh = 0
+        scattered = rng.chance(1, 2)
+        for i in range(length):
+            r = rng.below(100)
+            if r < 62 and ins_ops:
+                if scattered and rng.chance(1, 3):
+                    k = 20000 + rng.below(40000)
+                else:
+                    k = nxt; nxt += 1
+                o = rng.choice(ins_ops)
+                seq.append("%s:%d:%d%s" % (o, k, self.val(), ":1" if o in ("upd", "ups") else ""))
+                present.append(k)
+            elif r < 72 and del_ops and present:
+                j = rng.below(len(present)); k = present[j]; present[j] = present[-1]; present.pop()
+                seq.append("%s:%d" % (rng.choice(del_ops), k))
+            elif r < 97 and look_ops:
+                if present and rng.chance(4, 5):
+                    k = present[rng.below(len(present))] if rng.chance(1, 2) else present[-1 - rng.below(min(4, len(present)))]
+                else:
+                    k = rng.below(nxt + 10)
+                seq.append("%s:%d" % (rng.choice(look_ops), k))
+            elif "size" in ops:
+                seq.append("size")
+        # every key believed present must be found
+        for k in present[-40:]:
+            if look_ops: seq.append("%s:%d" % (look_ops[0], k))
+        if "size" in ops: seq.append("size")
+        if "iter" in ops: seq.append("iter")
+        return seq
+
     def pick_present(self, present):
         # sets are small or we only need *some* element: sample through sorted order for determinism
         l = sorted(present)
@@ -265,6 +305,8 @@ def sequences_for(ctx, prof, rng):
             out.append(("k10km%d" % i, g.keyed(10000, 300 + rng.below(300), True), {"stream": "malformed", "keys": 10000}))
         for i in range(max(2, n_long)):
             out.append(("k64v%d" % i, g.keyed(64, 200 + rng.below(300), False), {"stream": "valid", "keys": 64}))
+        for i in range(3 if thorough else 1):
+            out.append(("kmany%d" % i, g.many_keys(2400 + rng.below(800)), {"stream": "many-keys", "keys": 60000}))
     else:
         n_small, n_mal, n_long = (160, 80, 10) if thorough else (40, 24, 3)
         for i in range(n_small):
@@ -341,7 +383,11 @@ HP_SETTINGS = ["", "0,1,0,0", "1,2,64,1", "0,1,17,1", "8,8,100,0", "3,3,500,0"] 
 DHP_SETTINGS = ["", "4", "64"]
 
 
-def run_variant(v, path, hp="", dhp="", timeout=1200):
+WATCHDOG_S = 60        # a whole sequence file takes a few seconds; a hang (e.g. a cycle in a list) is killed
+WATCHDOG_MIN_S = 15     # one sequence during minimisation
+
+
+def run_variant(v, path, hp="", dhp="", timeout=WATCHDOG_S):
     env = dict(os.environ)
     if hp: env["C20_HP"] = hp
     if dhp: env["C20_DHP"] = dhp
@@ -351,7 +397,7 @@ def run_variant(v, path, hp="", dhp="", timeout=1200):
     except subprocess.TimeoutExpired as ex:
         o = ex.stdout or ""
         if isinstance(o, bytes): o = o.decode(errors="replace")
-        return 124, o + "\n[timeout]"
+        return 124, o + "\n[watchdog: no result after %ss - hang]" % timeout
 
 
 PUSH_NAMES = ("push", "enq", "emp", "pushw")
@@ -387,7 +433,7 @@ def first_mismatch(kind, seqs, expected, observed):
         if e is None:
             return (sid, -1, "<model produced no output>", "")
         if o is None:
-            return (sid, -1, e[0] if e else "", "<no output: crash, hang or abort>")
+            return (sid, -1, e[0] if e else "", "<no output for this sequence: crash, abort or hang (watchdog)>")
         if kind == "S":
             for i, op in enumerate(ops):
                 el = e[i].split(" ", 1)[1] if i < len(e) else "<missing>"
@@ -420,14 +466,19 @@ class Runner:
         os.makedirs(self.tmp, exist_ok=True)
         self.n = 0
 
-    def check(self, v, seqs, tag, hp="", dhp="", expected=None):
+    def check(self, v, seqs, tag, hp="", dhp="", expected=None, timeout=None):
         """run variant v on seqs; -> (mismatch or None, expected)"""
         kind, cfg = v["kind"], v["cfg"]
         path = os.path.join(self.tmp, "%s-%s.ops" % (tag, hashlib.sha256(v["name"].encode()).hexdigest()[:8] if expected is None else "p"))
         if expected is None or not os.path.exists(path):
             write_seqs(path, kind, cfg, seqs)
-        rc, out = run_variant(v, path, hp, dhp)
+        rc, out = run_variant(v, path, hp, dhp, timeout or (WATCHDOG_S * (4 if len(seqs) > 5000 else 1)))
         observed = parse_out(out)
+        if rc == 124:
+            # the sequence being executed when the watchdog fired has incomplete output: drop it so that it is reported as hanging
+            done = [sid for sid, _, _ in seqs if sid in observed]
+            if done and not (observed[done[-1]] and observed[done[-1]][-1].startswith("end")):
+                del observed[done[-1]]
         if kind == "S":
             mseqs = seg_model_input(seqs, observed)
             mpath = path + ".model-%s" % hashlib.sha256(v["name"].encode()).hexdigest()[:8]
@@ -442,9 +493,10 @@ class Runner:
 
     def minimise(self, v, ops, hp, dhp):
         """drop operations while some mismatch persists; -> (ops, mismatch)"""
+        deadline = time.time() + 150
         def bad(cand):
             self.n += 1
-            mm, _ = self.check(v, [("m", cand, {})], "min%d" % (self.n % 4), hp, dhp)
+            mm, _ = self.check(v, [("m", cand, {})], "min%d" % (self.n % 4), hp, dhp, timeout=WATCHDOG_MIN_S)
             return mm
         cur = list(ops)
         mm = bad(cur)
@@ -454,10 +506,10 @@ class Runner:
             cur = cur[:mm[1] + 1]
         chunk = max(1, len(cur) // 2)
         budget = 400
-        while chunk >= 1 and budget > 0:
+        while chunk >= 1 and budget > 0 and time.time() < deadline:
             i = 0
             progress = False
-            while i < len(cur) and budget > 0:
+            while i < len(cur) and budget > 0 and time.time() < deadline:
                 cand = cur[:i] + cur[i + chunk:]
                 budget -= 1
                 if cand:
